@@ -66,11 +66,21 @@ def run(ctx):
     it.mode.by_contract.discard('pdu.UserInformationItem.decode')
     it.mode.by_contract.discard('pdu.PresentationContextItemRQ.decode')
     install_decoders(it)
+    register(ctx, it)
+
+
+def register_run(ctx, it, res):
+    """only the run-loop exploration (C05 re-uses it; the PDU decoders must be by contract there too)"""
+    install_decoders(it)
+    register(ctx, it, only_run=True, res=res)
+
+
+def register(ctx, it, only_run=False, res=None):
     fsm = it.modules['pynetdicom2.fsm']
     dul = it.modules['pynetdicom2.dulprovider']
     States, Events = fsm.attrs['States'], fsm.attrs['Events']
-    res = verify.FunctionResult('dulprovider.')
-    infos = []
+    res = res or verify.FunctionResult('dulprovider.')
+    infos = list(ctx.extra.get('functions', [])) if only_run else []
     for q in ('dulprovider.DULServiceProvider._process_incoming', 'dulprovider.DULServiceProvider._check_incoming_pdu',
               'dulprovider.DULServiceProvider._check_network', 'dulprovider.DULServiceProvider.run'):
         fv, _ = verify.lookup_function(it, q)
@@ -162,7 +172,8 @@ def run(ctx):
                provider.fields['primitive'] is prim0 and r is False)
         p.outcome = 'normal'
     lab = 'dulprovider.DULServiceProvider._process_incoming'
-    ctx.add_exploration(lab, process_incoming, res, target=lab)
+    if not only_run:
+        ctx.add_exploration(lab, process_incoming, res, target=lab)
 
     # ------------------------------------------------------------------ _check_incoming_pdu
     def check_incoming(p):
@@ -192,7 +203,8 @@ def run(ctx):
             ob('buffer-untouched', after is B)
         p.outcome = 'normal'
     lab2 = 'dulprovider.DULServiceProvider._check_incoming_pdu'
-    ctx.add_exploration(lab2, check_incoming, res, target=lab2)
+    if not only_run:
+        ctx.add_exploration(lab2, check_incoming, res, target=lab2)
 
     # ------------------------------------------------------------------ _check_network
     def check_network(p, sta):
@@ -218,12 +230,18 @@ def run(ctx):
         after = provider.fields['raw_pdu']
         ob('at-most-one-event-per-call', len(evs) <= 1)
         ob('reports-an-event-iff-one-was-queued', (r is True) == (len(evs) == 1))
-        if sta == 13 or state['closed_by'] is not None:
-            p.outcome = 'normal'     # closing: the stream has ended (Sta13: whatever still arrives is discarded)
+        if state['closed_by'] is not None:
+            p.outcome = 'normal'     # the stream has ended
             return
         d = state['chunk'] if state['chunk'] is not None else b''
         X = z3.Concat(bt(B), bt(d)) if not (isinstance(d, bytes) and d == b'') else bt(B)
         pdu_event = bool(evs) and evs[0] not in (EV[2], EV[17], EV[18])
+        if sta != 4:
+            # in every state in which a connection exists (Sta4: it is just being confirmed), a complete
+            # PDU in what has been received so far is recognised -- the protocol machine has a cell for
+            # every PDU in every such state, including Sta13 (awaiting the peer's close)
+            complete_x, _full = frame_len(X)
+            ob('a-complete-pdu-is-always-recognised', z3.Implies(complete_x, z3.BoolVal(pdu_event)))
         if pdu_event:
             complete, full = frame_len(X)
             ob('frame-only-from-a-complete-pdu', complete)
@@ -232,7 +250,7 @@ def run(ctx):
         else:
             ob('no-byte-lost-duplicated-or-reordered', bt(after) == X)
         p.outcome = 'normal'
-    for sta in range(1, 14):
+    for sta in (range(1, 14) if not only_run else ()):
         lab3 = 'dulprovider.DULServiceProvider._check_network[Sta%d]' % sta
         ctx.add_exploration(lab3, lambda p, sta=sta: check_network(p, sta), res,
                             target='dulprovider.DULServiceProvider._check_network')
@@ -323,7 +341,10 @@ def run(ctx):
 
     def replayer(ctx2, ob_, model):
         from .. import replay
-        return replay.run_native('c03.py', {'obligation': ob_.name}, timeout=300)
+        return replay.run_native('c03.py', {'search': 'segmentations'}, timeout=300)   # one search serves them all
+    if only_run:
+        ctx.replayers['dulprovider.DULServiceProvider.run*'] = replayer
+        return
     ctx.replayers['*'] = replayer
     ctx.assumptions += [
         'recv() returns any non-empty chunk, b"" (peer closed) or raises socket.error; select() is nondeterministic; '
